@@ -62,8 +62,8 @@ CLAIMED = {
        "not instantiated.",
   design="§4 C16"),
  "C20": dict(
-  text="Kernel claim only: the private numeric kernels of the random generator (arbitrary_num for 8 integer types, arbitrary_variant, "
-       "arbitrary_len) return an error or an in-range result and never panic, for all configured ranges/weights and entropy strings.",
+  text="Kernel claim only: the private numeric kernels of the random generator (arbitrary_num for u8/i8, "
+       "arbitrary_len) return an error or an in-range result and never panic, for 8-bit targets, all configured ranges with |l|,|r| <= 300 (incl. inverted and out-of-type bounds) and all 16-byte entropy strings.",
   note="Outside (most of the property): type-directed generation, depth/size budget, termination on recursive types, text, config "
        "parsing, 'annotates unchanged / encodes'.",
   design="§4 C20"),
